@@ -95,11 +95,15 @@ def run(ck):
     blocks = []     # (desc, maxiter, atd, nprocs, rounds(list of list of bool), observed finishing iters)
     n_events = 0
     hist = {}
+    budget_hits = [0]
     for i in range(nruns):
         cfg, u0, t0, Tend = gen_cfg(rng, thorough)
         try:
             C, uend, stats, log = er.run(cfg, u0, t0, Tend)
         except ZeroDivisionError:
+            continue
+        except er.RunBudgetExceeded:
+            budget_hits[0] += 1
             continue
         key = (cfg['kind'], len(cfg['levels']), cfg['num_procs'], cfg['maxiter'], str(cfg['restol']), cfg['residual_type'],
                cfg['mssdc_jac'], cfg['predict_type'], str(cfg['nsweeps']), cfg['initial_guess'], cfg['all_to_done'])
@@ -173,6 +177,10 @@ def run(ck):
             blocks.append((meta, maxiter, cfg['all_to_done'], len(blk), rounds, fins))
             hist[len(blk)] = hist.get(len(blk), 0) + 1
     ck.cov['residual_events_checked'] = n_events
+    ck.cov['exact_runs_over_time_budget'] = budget_hits[0]
+    if budget_hits[0] > nruns // 4:
+        ck.violation('%d of %d exact runs exceeded the time budget (iterations no longer contract?)' % (budget_hits[0], nruns), {'over_budget': budget_hits[0]},
+                     match={'kind': 'runs_over_budget'}, no_input=True)
     ck.cov['blocks_by_size'] = hist
 
     # ---- Coq: replay the residual histories through Model/Stopping.run_block
